@@ -125,7 +125,7 @@ def macro_rules(ctx, m):
     may be read (then the expansion is uniform in the struct shape and the verdict on the generated-program family generalises).
     Additionally the emitted token program is reconstructed when the macro is written with the explicit accumulate-in-a-loop
     idiom; another (behaviour-preserving) spelling is not an alarm: the generated programs are what is judged."""
-    fns = [f for f in ctx.prog.fns.values() if f.crate.name == "bourse_macros" and f.kind == "Fn" and f.pub and "TokenStream) -> " in f.sig and "TokenStream" in f.sig.split("->")[-1]]
+    fns = [f for f in ctx.prog.units() if f.crate.name == "bourse_macros" and f.kind == "Fn" and f.pub and "TokenStream) -> " in f.sig and "TokenStream" in f.sig.split("->")[-1]]
     ctx.check(len(fns) == 2, "macro", "found", "-", "two derive entry points found (%s)" % ", ".join(f.name for f in fns), "expected 2 derive entry points, found %d" % len(fns))
     views = {}
     for f in fns:
